@@ -50,6 +50,7 @@ const (
 	kPtEq                 // plaintext at op0's level and scale
 	kPtDiff               // plaintext at op0's level, different scale
 	kPtLow                // plaintext one level below op0, op0's scale
+	kPtHigh               // plaintext one level above op0 (op0 below the top level), op0's scale
 	kBig                  // *big.Int
 	kU64
 	kI64
@@ -61,14 +62,14 @@ const (
 
 var kindNames = map[okind]string{
 	kCtOther: "ct-deg1", kCtSelf: "ct-self", kCtLow: "ct-lowlevel-diffscale", kCtDeg2: "ct-deg2",
-	kPtEq: "pt-eqscale", kPtDiff: "pt-diffscale", kPtLow: "pt-lowlevel",
+	kPtEq: "pt-eqscale", kPtDiff: "pt-diffscale", kPtLow: "pt-lowlevel", kPtHigh: "pt-highlevel",
 	kBig: "bigint", kU64: "uint64", kI64: "int64", kInt: "int", kVecU: "vec-uint64", kVecI: "vec-int64", kNone: "none",
 }
 
 func (k okind) String() string  { return kindNames[k] }
 func (k okind) isCt() bool      { return k <= kCtDeg2 }
-func (k okind) isPt() bool      { return k >= kPtEq && k <= kPtLow }
-func (k okind) isElement() bool { return k <= kPtLow }
+func (k okind) isPt() bool      { return k >= kPtEq && k <= kPtHigh }
+func (k okind) isElement() bool { return k <= kPtHigh }
 func (k okind) isScalar() bool  { return k >= kBig && k <= kInt }
 func (k okind) isVec() bool     { return k == kVecU || k == kVecI }
 
@@ -107,10 +108,16 @@ const (
 	// for MatchScalesAndLevel: the partner register
 	dPartner1
 	dPartner2
+	dPartner3 // register 3 (degree 2)
+	// reused receiver: a distinct, already used ciphertext at the top level (>= the level of the result) holding
+	// stale non-zero data and a foreign scale; its degree is 2 wherever the operation documents that it sets the
+	// degree itself (products, scalar/vector operands, Relinearize) and the documented result degree otherwise
+	// (Add/Sub of elements and Rescale keep a larger receiver degree: C09's known findings, not repeated here)
+	dStale
 )
 
 var dformNames = map[dform]string{dNew: "new", dFresh: "fresh-out", dInPlace: "out=op0", dAccA: "acc-a", dAccB: "acc-b",
-	dAccOp0: "acc=op0", dPartner1: "partner-a", dPartner2: "partner-b"}
+	dAccOp0: "acc=op0", dPartner1: "partner-a", dPartner2: "partner-b", dPartner3: "partner-deg2", dStale: "stale-receiver"}
 
 func (d dform) String() string { return dformNames[d] }
 
@@ -129,29 +136,42 @@ func (i instr) String() string {
 	return fmt.Sprintf("%s(r%d,%s#%d)->%s", i.op, i.src, i.kind, i.arg, i.dst)
 }
 
-var allKinds = []okind{kCtOther, kCtSelf, kCtLow, kCtDeg2, kPtEq, kPtDiff, kPtLow, kBig, kU64, kI64, kInt, kVecU, kVecI}
+var allKinds = []okind{kCtOther, kCtSelf, kCtLow, kCtDeg2, kPtEq, kPtDiff, kPtLow, kPtHigh, kBig, kU64, kI64, kInt, kVecU, kVecI}
+
+// kindsFor: operand kinds offered to op0 = register src. Register 2 (one level lower, other scale) as op0 gets
+// the element operands that sit at a *higher* level than op0 (the other order of the level mismatch); scalars and
+// vectors do not depend on the order and are enumerated with registers 0 and 3 only.
+func kindsFor(src int) []okind {
+	switch src {
+	case 2:
+		return []okind{kCtOther, kCtDeg2, kPtEq, kPtHigh}
+	case 3:
+		var r []okind
+		for _, k := range allKinds {
+			if k != kCtDeg2 { // "self" already is the degree-2 operand
+				r = append(r, k)
+			}
+		}
+		return r
+	}
+	return allKinds
+}
 
 // wideAlphabet: the full product opcode x operand kind x value variant x destination form, for op0 in `srcs`.
 func wideAlphabet(srcs []int) []instr {
 	var a []instr
 	for _, src := range srcs {
 		for op := opAdd; op <= opMulRelinSI; op++ {
-			for _, k := range allKinds {
-				if src == 3 && (k == kCtDeg2) {
-					continue // register 3 as op0: "self" already is the degree-2 operand
-				}
+			for _, k := range kindsFor(src) {
 				for v := 0; v < variants(k); v++ {
-					for _, d := range []dform{dNew, dFresh, dInPlace} {
+					for _, d := range []dform{dNew, dFresh, dInPlace, dStale} {
 						a = append(a, instr{op, src, k, v, d})
 					}
 				}
 			}
 		}
 		for _, op := range []opcode{opMulThenAdd, opMulRelinThenAdd} {
-			for _, k := range allKinds {
-				if src == 3 && (k == kCtDeg2) {
-					continue
-				}
+			for _, k := range kindsFor(src) {
 				for v := 0; v < variants(k); v++ {
 					for _, d := range []dform{dAccA, dAccB, dAccOp0} {
 						a = append(a, instr{op, src, k, v, d})
@@ -160,12 +180,42 @@ func wideAlphabet(srcs []int) []instr {
 			}
 		}
 		a = append(a,
-			instr{opRescale, src, kNone, 0, dFresh}, instr{opRescale, src, kNone, 0, dInPlace},
+			instr{opRescale, src, kNone, 0, dFresh}, instr{opRescale, src, kNone, 0, dInPlace}, instr{opRescale, src, kNone, 0, dStale},
 			instr{opDropLevel, src, kNone, 0, dInPlace},
-			instr{opRelinearize, src, kNone, 0, dNew}, instr{opRelinearize, src, kNone, 0, dFresh}, instr{opRelinearize, src, kNone, 0, dInPlace},
-			instr{opMatchScales, src, kNone, 0, dPartner1}, instr{opMatchScales, src, kNone, 0, dPartner2},
+			instr{opRelinearize, src, kNone, 0, dNew}, instr{opRelinearize, src, kNone, 0, dFresh}, instr{opRelinearize, src, kNone, 0, dInPlace}, instr{opRelinearize, src, kNone, 0, dStale},
+			instr{opMatchScales, src, kNone, 0, dPartner1}, instr{opMatchScales, src, kNone, 0, dPartner2}, instr{opMatchScales, src, kNone, 0, dPartner3},
 		)
 	}
+	return a
+}
+
+// miniAlphabet: one instruction per opcode x operand class (ciphertext same level, ciphertext lower level / other
+// scale, degree-2 ciphertext, plaintext of another scale, hostile scalar, signed vector), destination forms
+// round-robin including the stale receiver; used for the length-3 programs of the quick tier.
+func miniAlphabet() []instr {
+	rep := map[okind]int{kBig: 5, kVecI: 2}
+	var a []instr
+	n := 0
+	for op := opAdd; op <= opMulRelinSI; op++ {
+		for _, k := range []okind{kCtOther, kCtLow, kCtDeg2, kPtDiff, kBig, kVecI} {
+			d := []dform{dNew, dStale, dInPlace, dFresh}[n%4]
+			n++
+			a = append(a, instr{op, 0, k, rep[k], d})
+		}
+	}
+	for _, op := range []opcode{opMulThenAdd, opMulRelinThenAdd} {
+		for _, k := range []okind{kCtOther, kCtLow, kPtDiff, kBig, kVecI} {
+			d := []dform{dAccA, dAccB}[n%2]
+			n++
+			a = append(a, instr{op, 0, k, rep[k], d})
+		}
+	}
+	a = append(a,
+		instr{opRescale, 0, kNone, 0, dInPlace}, instr{opRescale, 1, kNone, 0, dStale}, instr{opDropLevel, 1, kNone, 0, dInPlace},
+		instr{opRelinearize, 0, kNone, 0, dStale}, instr{opRelinearize, 3, kNone, 0, dInPlace},
+		instr{opMatchScales, 0, kNone, 0, dPartner2}, instr{opMatchScales, 2, kNone, 0, dPartner3},
+		instr{opMul, 2, kCtOther, 0, dInPlace}, instr{opAdd, 2, kPtHigh, 0, dStale}, instr{opSub, 1, kCtDeg2, 0, dStale},
+	)
 	return a
 }
 
@@ -200,6 +250,11 @@ func coreAlphabet() []instr {
 		instr{opMulRelin, 1, kCtSelf, 0, dInPlace}, instr{opMul, 1, kCtOther, 0, dNew}, instr{opAdd, 1, kCtLow, 0, dInPlace},
 		instr{opAdd, 3, kCtOther, 0, dInPlace}, instr{opSub, 3, kPtDiff, 0, dNew}, instr{opMul, 3, kU64, 2, dInPlace},
 		instr{opMulRelinSI, 1, kCtOther, 0, dFresh}, instr{opMulThenAdd, 1, kCtOther, 0, dAccB},
+		// op0 at the lower level, receivers holding stale data
+		instr{opAdd, 2, kCtOther, 0, dStale}, instr{opSub, 2, kCtDeg2, 0, dStale}, instr{opMulRelin, 2, kCtOther, 0, dStale},
+		instr{opMulSI, 2, kCtOther, 0, dNew}, instr{opMul, 2, kPtHigh, 0, dInPlace}, instr{opMulThenAdd, 2, kCtOther, 0, dAccB},
+		instr{opRescale, 1, kNone, 0, dStale}, instr{opRelinearize, 3, kNone, 0, dStale}, instr{opMatchScales, 2, kNone, 0, dPartner3},
+		instr{opAdd, 0, kCtDeg2, 0, dStale}, instr{opSub, 0, kCtLow, 0, dStale}, instr{opMul, 0, kBig, 2, dStale},
 	)
 	return a
 }
